@@ -32,6 +32,7 @@ type AnyCon struct {
 	Payload  Sort
 	Type     types.Type
 	TagID    int
+	Opaque   bool // dynamic type mentions a type parameter: not a datatype constructor (the tag is unknown)
 }
 
 type Registry struct {
@@ -294,7 +295,7 @@ func (r *Registry) AnyConFor(t types.Type) *AnyCon {
 	if c, ok := r.anyCons[key]; ok {
 		return c
 	}
-	c := &AnyCon{Key: key, Ctor: quote("box:" + key), Accessor: quote("unbox:" + key), Payload: r.SortOf(t), Type: t, TagID: len(r.anyOrder) + 1}
+	c := &AnyCon{Key: key, Ctor: quote("box:" + key), Accessor: quote("unbox:" + key), Payload: r.SortOf(t), Type: t, TagID: len(r.anyOrder) + 1, Opaque: hasTypeParam(t)}
 	r.anyCons[key] = c
 	r.anyOrder = append(r.anyOrder, key)
 	r.typeByKey[key] = t
@@ -311,7 +312,9 @@ func (r *Registry) Box(t types.Type, v Term) Term {
 
 func (r *Registry) IsBoxed(t types.Type, a Term) Term {
 	c := r.AnyConFor(t)
-	// a literal boxing decides the test
+	// a literal boxing decides the test - unless one of the two types mentions a type parameter:
+	// a value of type K boxed in an interface has whatever dynamic type K is instantiated with, so
+	// `any(k).(string)` is neither true nor false in the generic body
 	if strings.HasPrefix(a.S, "(") {
 		if i := strings.IndexByte(a.S, ' '); i > 0 {
 			head := a.S[1:i]
@@ -319,7 +322,7 @@ func (r *Registry) IsBoxed(t types.Type, a Term) Term {
 				return TTrue
 			}
 			for _, k := range r.anyOrder {
-				if r.anyCons[k].Ctor == head {
+				if o := r.anyCons[k]; o.Ctor == head && !o.Opaque && !c.Opaque {
 					return TFalse
 				}
 			}
@@ -327,6 +330,9 @@ func (r *Registry) IsBoxed(t types.Type, a Term) Term {
 	}
 	if a.S == "nil_any" {
 		return TFalse
+	}
+	if c.Opaque {
+		return Eq(a, app(SAny, c.Ctor, app(c.Payload, c.Accessor, a)))
 	}
 	return Term{"((_ is " + c.Ctor + ") " + a.S + ")", SBool}
 }
@@ -399,8 +405,13 @@ func (r *Registry) Preamble() []string {
 	ab.WriteString("((nil_any) (box_other (other_tag Int) (other_id Int))")
 	keys := append([]string(nil), r.anyOrder...)
 	sort.Strings(keys)
+	var opaque []*AnyCon
 	for _, k := range keys {
 		c := r.anyCons[k]
+		if c.Opaque {
+			opaque = append(opaque, c)
+			continue
+		}
 		fmt.Fprintf(&ab, " (%s (%s %s))", c.Ctor, c.Accessor, c.Payload)
 	}
 	ab.WriteString(")")
@@ -423,6 +434,15 @@ func (r *Registry) Preamble() []string {
 	out = append(out, "(declare-datatypes ("+strings.Join(names, " ")+") ("+strings.Join(bodies, " ")+"))")
 	for _, a := range r.anyAliasOrd {
 		out = append(out, fmt.Sprintf("(define-sort %s () Any)", a))
+	}
+	// boxing at a type that mentions a type parameter: injective, never the nil interface, tag unknown
+	for _, c := range opaque {
+		ps := c.Payload
+		if isAnySort(ps) {
+			ps = SAny
+		}
+		out = append(out, fmt.Sprintf("(declare-fun %s (%s) Any)", c.Ctor, ps), fmt.Sprintf("(declare-fun %s (Any) %s)", c.Accessor, ps),
+			fmt.Sprintf("(assert (forall ((v %s)) (! (and (= (%s (%s v)) v) (not (= (%s v) nil_any))) :pattern ((%s v)))))", ps, c.Accessor, c.Ctor, c.Ctor, c.Ctor))
 	}
 	for _, n := range r.constArrOrder {
 		out = append(out, r.constArrs[n])
